@@ -177,3 +177,15 @@ func init() {
 		return Val{K: KUnit}
 	}
 }
+
+// errors.New / fmt.Errorf: a non-nil error value (message text is not modelled).
+func init() {
+	nonNilErr := func(c *FnCtx, st *State, call *ast.CallExpr, recv *Val, args []Val) Val {
+		e := c.fresh("err", "Ifc")
+		c.fact(sNot(sx("=", sx("tag", e), "0")))
+		return Val{K: KIfc, S: e, T: c.typeOf(call)}
+	}
+	externs["errors.New"] = nonNilErr
+	externs["fmt.Errorf"] = nonNilErr
+	externs["github.com/go-pars/pars.NewError"] = nonNilErr
+}
